@@ -137,4 +137,73 @@ theorem setParent_parentOf (s : St) (x y q : Nat) :
 theorem setParent_parentOf_ne (s : St) (x y q : Nat) (h : q ≠ x) : (s.setParent x y).parentOf q = s.parentOf q := by
   rw [setParent_parentOf]; simp [h]
 
+/-! ### adopt: `if c != NIL { c.SetParent(p) }` -/
+@[simp] theorem adopt_nodes (s : St) (c p : Nat) : (adopt s c p).nodes = s.nodes := by unfold adopt; split <;> rfl
+@[simp] theorem adopt_root (s : St) (c p : Nat) : (adopt s c p).root = s.root := by unfold adopt; split <;> rfl
+@[simp] theorem adopt_fault (s : St) (c p : Nat) : (adopt s c p).fault = s.fault := by unfold adopt; split <;> rfl
+@[simp] theorem adopt_size (s : St) (c p : Nat) : (adopt s c p).heap.size = s.heap.size := by
+  unfold adopt; split <;> simp
+@[simp] theorem adopt_left (s : St) (c p q : Nat) : ((adopt s c p).nd q).left = (s.nd q).left := by
+  unfold adopt; split <;> simp
+@[simp] theorem adopt_right (s : St) (c p q : Nat) : ((adopt s c p).nd q).right = (s.nd q).right := by
+  unfold adopt; split <;> simp
+@[simp] theorem adopt_key (s : St) (c p q : Nat) : ((adopt s c p).nd q).key = (s.nd q).key := by
+  unfold adopt; split <;> simp
+@[simp] theorem adopt_val (s : St) (c p q : Nat) : ((adopt s c p).nd q).val = (s.nd q).val := by
+  unfold adopt; split <;> simp
+@[simp] theorem adopt_red (s : St) (c p q : Nat) : ((adopt s c p).nd q).red = (s.nd q).red := by
+  unfold adopt; split <;> simp
+@[simp] theorem adopt_idx (s : St) (c p q : Nat) : ((adopt s c p).nd q).idx = (s.nd q).idx := by
+  unfold adopt; split <;> simp
+theorem adopt_parentOf_ne (s : St) (c p q : Nat) (h : q ≠ c) : (adopt s c p).parentOf q = s.parentOf q := by
+  unfold adopt; split
+  · exact setParent_parentOf_ne s c p q h
+  · rfl
+theorem adopt_parentOf_self (s : St) (c p : Nat) (hc : c ≠ 0) (hs : c < s.heap.size) :
+    (adopt s c p).parentOf c = s.nodes.getD (s.nd p).idx 0 := by
+  unfold adopt; rw [if_pos hc, setParent_parentOf]; simp [hs]
+
+/-! ### relink: redirect the pointer that led to `x` -/
+@[simp] theorem relink_nodes (s : St) (x y : Nat) : (relink s x y).nodes = s.nodes := by
+  unfold relink; repeat' split
+  all_goals rfl
+@[simp] theorem relink_fault (s : St) (x y : Nat) : (relink s x y).fault = s.fault := by
+  unfold relink; repeat' split
+  all_goals rfl
+@[simp] theorem relink_size (s : St) (x y : Nat) : (relink s x y).heap.size = s.heap.size := by
+  unfold relink; repeat' split
+  all_goals simp
+@[simp] theorem relink_key (s : St) (x y q : Nat) : ((relink s x y).nd q).key = (s.nd q).key := by
+  unfold relink; repeat' split
+  all_goals simp
+@[simp] theorem relink_val (s : St) (x y q : Nat) : ((relink s x y).nd q).val = (s.nd q).val := by
+  unfold relink; repeat' split
+  all_goals simp
+@[simp] theorem relink_red (s : St) (x y q : Nat) : ((relink s x y).nd q).red = (s.nd q).red := by
+  unfold relink; repeat' split
+  all_goals simp
+@[simp] theorem relink_idx (s : St) (x y q : Nat) : ((relink s x y).nd q).idx = (s.nd q).idx := by
+  unfold relink; repeat' split
+  all_goals simp
+@[simp] theorem relink_parent (s : St) (x y q : Nat) : ((relink s x y).nd q).parent = (s.nd q).parent := by
+  unfold relink; repeat' split
+  all_goals simp
+@[simp] theorem relink_parentOf (s : St) (x y q : Nat) : (relink s x y).parentOf q = s.parentOf q := by
+  simp [St.parentOf]
+theorem relink_left_ne (s : St) (x y q : Nat) (h : q ≠ s.parentOf x) : ((relink s x y).nd q).left = (s.nd q).left := by
+  unfold relink; repeat' split
+  all_goals simp [setLeft_left, h]
+theorem relink_right_ne (s : St) (x y q : Nat) (h : q ≠ s.parentOf x) : ((relink s x y).nd q).right = (s.nd q).right := by
+  unfold relink; repeat' split
+  all_goals simp [setRight_right, h]
+theorem relink_root (s : St) (x y : Nat) : (relink s x y).root = if s.parentOf x = 0 then y else s.root := by
+  unfold relink; repeat' split
+  all_goals simp_all
+/-- at the parent: the child field that held `x` now holds `y`, the other one is unchanged -/
+theorem relink_at_parent (s : St) (x y : Nat) (h0 : s.parentOf x ≠ 0) (hs : s.parentOf x < s.heap.size) :
+    ((relink s x y).nd (s.parentOf x)).left = (if x = (s.nd (s.parentOf x)).left then y else (s.nd (s.parentOf x)).left) ∧
+    ((relink s x y).nd (s.parentOf x)).right = (if x = (s.nd (s.parentOf x)).left then (s.nd (s.parentOf x)).right else y) := by
+  unfold relink; rw [if_neg h0]
+  split <;> simp [setLeft_left, setRight_right, hs]
+
 end WaVerif.C13RB
